@@ -90,6 +90,20 @@ def late_browser(sid: str, variant: int) -> dict:
     return {'id': sid, 'seed': 1000 + variant, 'hosts': ['node0', 'node1', 'node2'], 'late_hosts': ['node2'], 'steps': steps, 'fault': {}}
 
 
+def warm_browser(sid: str, variant: int) -> dict:
+    """A browser started long after the announcements on a host that has been on the link all the time: its cache holds the
+    pointer at an age below, around and above half its TTL, so the start-up queries list it as known answer or not, and the
+    Added callback has to come from the replay of the cache to the new listener."""
+    svc = {'name': 'Warm-%d._http._tcp.local.' % variant, 'type': '_http._tcp.local.', 'host': 'node0', 'port': 80, 'txt': b'\x03a=1'.hex()}
+    tb = [1000000, 2249000, 2251000, 2400000, 3300000, 4000000][variant % 6]
+    steps = [{'op': 'at', 't': 0}, {'op': 'reg', 'svc': svc},
+             {'op': 'at', 't': tb}, {'op': 'bstart', 'bid': 1, 'host': 'node1', 'types': ['_http._tcp.local.']},
+             {'op': 'at', 't': tb + 16000}, {'op': 'check', 'kind': 'after-registration'},
+             {'op': 'at', 't': tb + 16500}, {'op': 'unreg', 'svc': svc},
+             {'op': 'at', 't': tb + 19500}, {'op': 'check', 'kind': 'after-withdrawal'}, {'op': 'at', 't': tb + 20000}]
+    return {'id': sid, 'seed': 3000 + variant, 'hosts': ['node0', 'node1'], 'steps': steps, 'fault': {}}
+
+
 def churn(sid: str, variant: int) -> dict:
     """A service that is registered while a browser is in its start-up phase and withdrawn as soon as its announcements are
     out.  With a slow path from the responder (plans), a start-up query crosses the first announcement: it reaches the responder
@@ -110,6 +124,7 @@ def run(ctx: Ctx) -> None:
     rng = random.Random(ctx.seed * 7919 + 7)
     base = [late_browser('c07-late-%d' % k, k) for k in range(ctx.pick(2, 6))]
     base += [churn('c07-churn-%d' % k, k) for k in range(ctx.pick(8, 16))]
+    base += [warm_browser('c07-warm-%d' % k, k) for k in range(ctx.pick(6, 12))]
     base += [lf.gen_link(rng, 'c07-%d' % k, ctx.thorough) for k in range(ctx.pick(10, 300))]
     from props import linkmodel as lm
     # binding 1: the design-level model of discovery on a lossy link (one and two losses are tolerated, three are not, and one
